@@ -410,15 +410,61 @@ def run_B(case):
             "extra": summ}
 
 
+def run_R(case):
+    """a model object that is fitted AGAIN (after having been fitted and used on another meter) is, for storage purposes, the
+    model of its last fit: its live predictions equal those of its own document and those of a fresh object fitted on the same data"""
+    fam = case["fit"]
+    key0 = {"part": "refit", "family": fam}
+    viol = []
+    fa = c02.baseline_frame(fam, 365, seed=0)
+    fb = c02.baseline_frame(fam, 365, seed=5)
+    if fam in ("daily", "billing"):
+        fb = ds.daily_frame(start="2021-01-01", days=365, tz=ZONE, wseed=5, seed=5, noise=0.05, weekend_factor=0.7, hs=2.5, cs=0.4, base=60.0)
+    sets = reporting_sets(fam, case["tier"])[:4]
+    m = c02.new_model(fam)
+    c02.fit(fam, m, c02.make_baseline(fam, fa))
+    for _, d in sets:
+        try:
+            c02.predict(fam, m, d)
+        except Exception:
+            pass
+    m.to_json()
+    c02.fit(fam, m, c02.make_baseline(fam, fb))
+    fresh = c02.fit(fam, c02.new_model(fam), c02.make_baseline(fam, fb))
+    doc, doc_fresh = m.to_json(), fresh.to_json()
+    if not same_doc(doc, doc_fresh):
+        a, b = json.loads(doc), json.loads(doc_fresh)
+        viol.append({"clause": "refitted_object_document_differs_from_fresh_fit", "key": key0,
+                     "detail": f"top-level keys differing: {sorted(k for k in a if a.get(k) != b.get(k))}"})
+    loaded = type(m).from_json(doc)
+    for sn, d in sets:
+        outs = {}
+        for who, obj in (("refitted", m), ("loaded", loaded), ("fresh", fresh)):
+            try:
+                outs[who] = F.fp(c02.predict(fam, obj, d)["predicted"].to_numpy(float))
+            except Exception as exc:
+                outs[who] = "raise:" + type(exc).__name__
+        if outs["refitted"] != outs["loaded"]:
+            viol.append({"clause": "prediction_differs_after_roundtrip", "key": dict(key0, after="refit"),
+                         "detail": f"object fitted twice: predict({sn}) live {outs['refitted']} vs loaded from its own document {outs['loaded']}"})
+        if outs["refitted"] != outs["fresh"]:
+            viol.append({"clause": "refitted_object_predicts_unlike_fresh_fit", "key": key0,
+                         "detail": f"predict({sn}) {outs['refitted']} vs fresh object fitted on the same data {outs['fresh']}"})
+    return {"behaviour": [fam, "refit", len(viol)], "violations": viol, "stats": {"fits": 3}}
+
+
 def run_case(case):
-    return {"A": run_A, "B": run_B}[case["part"]](case)
+    return {"A": run_A, "B": run_B, "R": run_R}[case["part"]](case)
 
 
 def cases_B(tier):
     names = [f[0] for f in FITTED]
     if tier == "quick":
         names = ["daily_current", "daily_legacy", "daily_poorfit", "billing", "hourly", "hourly_solar", "hourly_robust", "caltrack"]
-    return [{"part": "B", "fit": n, "tier": tier, "depth": 3 if tier == "thorough" else 2} for n in names]
+    out = [{"part": "B", "fit": n, "tier": tier, "depth": 3 if tier == "thorough" else 2} for n in names]
+    out += [{"part": "R", "fit": f, "tier": tier} for f in (("daily", "billing", "hourly") if tier == "quick" else
+                                                               ("daily", "billing", "hourly", "hourly_solar", "caltrack"))]
+    return out
 
 
 def run(tier, seed):
